@@ -94,6 +94,43 @@ func randSquareCase(c *Ctx, r *Rng, ordered, tight bool) sqCase {
 		max = 8 + 8*r.Intn(2)
 	}
 	txs := randTxList(r, nNormal, nBlob, maxBlob, !ordered, nss)
+	if r.Intn(7) == 0 {
+		// many small blobs: 13-60 blobs over 2-3 interleaved namespaces, several per transaction
+		// (sorting more than 12 elements; equal namespaces within and across transactions)
+		max = pick(r, []int{16, 32})
+		few := nss[:min(len(nss), 2+r.Intn(2))]
+		var many []genTx
+		total := 13 + r.Intn(48)
+		for total > 0 {
+			k := 1 + r.Intn(6)
+			if k > total {
+				k = total
+			}
+			total -= k
+			blobs := make([]genBlob, k)
+			for j := range blobs {
+				blobs[j] = randBlob(r, few, 700)
+				if r.Bool(70) {
+					blobs[j].data = r.Bytes(1 + r.Intn(500))
+				}
+			}
+			many = append(many, genTx{raw: blobTxOf(r, blobs), blobs: blobs})
+		}
+		var keepNormals []genTx
+		for _, t := range txs {
+			if t.blobs == nil {
+				keepNormals = append(keepNormals, t)
+			}
+		}
+		txs = append(keepNormals, many...)
+		if !ordered {
+			for i := len(txs) - 1; i > 0; i-- {
+				j := r.Intn(i + 1)
+				txs[i], txs[j] = txs[j], txs[i]
+			}
+		}
+		c.count("many_blobs")
+	}
 	c.count(fmt.Sprintf("max_%d", max))
 	c.count(fmt.Sprintf("thr_%d", thr))
 	c.count(fmt.Sprintf("ntx_%d", min(len(txs)/3*3, 12)))
@@ -123,6 +160,8 @@ func keptCase(s sqCase) (square.Square, [][]byte, error) {
 
 // ---- C01 ----
 func genC01(c *Ctx) {
+	shortInner = true
+	defer func() { shortInner = false }()
 	c.rule = "mixed tx lists (0-14 txs, normal sizes from the compact hot list, 1-4 blobs per blob tx with sparse hot sizes, versions 0/1, 2-5 namespaces) x max in powers of two (tight so that appends are refused) x thresholds; Build, Construct(kept), each twice; non-trivial = distinct case where something was kept"
 	r := c.rng
 	for i := 0; i < 260*c.scale; i++ {
@@ -254,6 +293,8 @@ func placements(sq square.Square, kept [][]byte) ([]placement, error) {
 
 // ---- C03 ----
 func genC03(c *Ctx) {
+	shortInner = true
+	defer func() { shortInner = false }()
 	c.rule = "squares from Build and Construct over mixed lists as in C01; direct scan: side, share count and size, namespace order, region structure, canonical padding everywhere outside the two compact sequences and the blobs; non-trivial = distinct case with at least one blob or two transactions"
 	r := c.rng
 	for i := 0; i < 260*c.scale; i++ {
@@ -342,6 +383,8 @@ func genC03(c *Ctx) {
 
 // ---- C04 ----
 func genC04(c *Ctx) {
+	shortInner = true
+	defer func() { shortInner = false }()
 	c.rule = "constructed squares over ordered lists with several blobs (equal and different namespaces, versions 0/1, boundary lengths); every (blob tx, blob): recorded index vs verbatim shares, alignment, disjointness and order, BlobShareRange incl. out-of-range indexes; non-trivial = distinct case with >= 2 blobs"
 	r := c.rng
 	for i := 0; i < 160*c.scale; i++ {
@@ -427,6 +470,8 @@ func occupied(sq square.Square) int {
 }
 
 func genC06(c *Ctx) {
+	shortInner = true
+	defer func() { shortInner = false }()
 	c.rule = "append sequences on a builder (accepted and refused ordinary and blob txs of hot sizes, tight maxima <= 64) with the observable state queried after every append and a final export; oracle: no Build error, estimate >= occupied shares, minimal side, refusal exactly on overflow (independent estimate), refused append leaves state unchanged; non-trivial = distinct sequence with a refused append or a blob"
 	r := c.rng
 	for i := 0; i < 220*c.scale; i++ {
@@ -501,6 +546,8 @@ func genC06(c *Ctx) {
 
 // ---- C07 ----
 func genC07(c *Ctx) {
+	shortInner = true
+	defer func() { shortInner = false }()
 	c.rule = "Construct and Build outputs compared byte for byte with an independent reference implementation of the layout rules (harness) and with the Coq model; lists as in C01 incl. equal namespaces (stability), versions 0/1; non-trivial = distinct case with a blob"
 	r := c.rng
 	for i := 0; i < 240*c.scale; i++ {
@@ -546,6 +593,8 @@ func shareOfOffset(p int) int {
 }
 
 func genC12(c *Ctx) {
+	shortInner = true
+	defer func() { shortInner = false }()
 	c.rule = "ordered lists (as kept by greedy builds) with tx sizes ending exactly on share ends and PFBs one varint byte shorter than the worst case; TxShareRange for every index -2..len+1 vs the set of shares holding a byte of the unit (recomputed from stream offsets over the real wrapped PFBs), ParseTxs of exactly that range, splitter ShareRanges; non-trivial = distinct (case, index) spanning or starting after the first share"
 	r := c.rng
 	for i := 0; i < 150*c.scale; i++ {
@@ -667,6 +716,8 @@ func genC12(c *Ctx) {
 
 // ---- C14 ----
 func genC14(c *Ctx) {
+	shortInner = true
+	defer func() { shortInner = false }()
 	c.rule = "operation histories: compact splitter {write, export, count} and builder {append tx / blob tx (accepted or refused), export, find range, find blob index, get wrapped PFB}; after every op the projected observable is compared with the model, and the final export with a twin object fed only the writes / accepted appends; non-trivial = distinct history with an export or query strictly between two writes/appends"
 	r := c.rng
 	// splitter half
@@ -831,6 +882,8 @@ func genC20(c *Ctx) {
 		for j, ns := range list {
 			raws[j] = refPadding(ns, 0)
 			raws[j][30+r.Intn(400)] = byte(r.Intn(256))
+			// sequence starts and continuation shares, versions 0/1: a run may begin with a continuation share
+			raws[j][29] = byte(r.Intn(4))
 		}
 		// queries: present, gaps (neighbours +-1), below, above
 		var queries [][]byte
@@ -874,6 +927,27 @@ func genC20(c *Ctx) {
 			continue
 		}
 		keptHex := joinHexList(kept)
+		// namespace lookup on slices of the square that may begin inside a sequence
+		if len(sq) <= 64 {
+			all := copyShares(sq)
+			for q := 0; q < 3; q++ {
+				lo := r.Intn(len(all))
+				hi := lo + 1 + r.Intn(len(all)-lo)
+				qns := all[lo+r.Intn(hi-lo)][:29]
+				c.add("nsrange", hx(qns), joinHexList(all[lo:hi]))
+				rg := share.GetShareRangeForNamespace(sq[lo:hi], nsOf(qns))
+				first, last := -1, -1
+				for j := lo; j < hi; j++ {
+					if bytes.Equal(all[j][:29], qns) {
+						if first < 0 {
+							first = j - lo
+						}
+						last = j - lo
+					}
+				}
+				c.check(rg.Start == first && rg.End == last+1, "GetShareRangeForNamespace", "not exactly the contiguous run carrying the namespace on a slice of a square", map[string]any{"case": s.shape(), "lo": lo, "hi": hi, "query": hx(qns)})
+			}
+		}
 		c.add("sqparseshares", "0", strconv.Itoa(s.max), strconv.Itoa(s.thr), keptHex)
 		c.add("sqparseshares", "1", strconv.Itoa(s.max), strconv.Itoa(s.thr), keptHex)
 		seqs, err := share.ParseShares(sq, false)
